@@ -46,7 +46,7 @@ func run(c *core.Ctx) {
 			{cfg: "Gen_C01_sizes_writes.cfg", dribble: []int{0}},
 			{cfg: "Gen_C01_comp_full.cfg", dribble: []int{0, 1}},
 			{cfg: "Gen_C01_comp_pairs.cfg", dribble: []int{0, 1, 2}},
-			{cfg: "Gen_C01_sizes_sim.cfg", dribble: []int{0, 4096}, opt: tlc.Options{Simulate: "num=1500", Depth: 40, Seed: c.Seed}},
+			{cfg: "Gen_C01_sizes_sim.cfg", dribble: []int{0}, opt: tlc.Options{Simulate: "num=1000", Depth: 40, Seed: c.Seed}},
 		}
 	}
 
